@@ -101,7 +101,8 @@ def rejected_wellformed(tr, what):
     """C07/C08/C09 cases deliver only packets built by the encoders of tools/mqtt.py (well formed by construction): run()
     giving up on one of them with a codec error leaves it, and everything after it, unacknowledged and undelivered"""
     rr = tr.run_result()
-    if rr is not None and rr[1].startswith("err Codec") and not has(tr, "eof", "rerr", "werr"):
+    if rr is not None and rr[1].startswith("err") and not rr[1].startswith(("err SocketClosed", "err HandleClosed", "err Disconnected")) \
+            and not has(tr, "eof", "rerr", "werr", "werr0", "rintr"):
         last = max([k for k, e in enumerate(tr.evs[:rr[0] + 1]) if e.startswith("deliver ")] or [-1])
         return "accept: run() gave up with %s at event %d on a well-formed inbound packet (delivered at event %d: %s); %s" % (
             rr[1][4:40], rr[0], last, tr.evs[last][8:72] if last >= 0 else "?", what)
@@ -174,6 +175,12 @@ def c08(case, lines):
 @oracle("C09")
 def c09(case, lines):
     tr = Trace(case, lines)
+    if (case.get("id") or "").startswith("pubcomp-fails-then-reuse"):
+        # the PUBREL was received (its PUBCOMP could not be written): the identifier is released, the next message using it is new
+        got = [kv(" ".join(l.split(" ")[3:]))["pl"] for l in lines if l.split(" ")[1] == "I"]
+        if got != [M.hx(b"m5"), M.hx(b"n5")]:
+            return "qos2: the stream yielded %s; m5 was released by its PUBREL, n5 is a new message under the same identifier: ['%s', '%s'] expected" % (got, M.hx(b"m5"), M.hx(b"n5"))
+        return None
     if (case.get("id") or "").startswith("pubrec-fails-then-resume"):
         # m2's PUBREC could not be written, the broker delivers m2 again on the next connection: m2 reaches the application once
         got = [kv(" ".join(l.split(" ")[3:]))["pl"] for l in lines if l.split(" ")[1] == "I"]
@@ -381,7 +388,8 @@ def c11(case, lines):
     # non-zero identifier that no other still-outstanding operation carries, and every SUBSCRIBE its own subscription id
     tr = Trace(case, lines)
     subids = set()
-    for conn in (connection_streams(tr) if not has(tr, "spin", "spinsub", "threads") and not tr.faulty else []):
+    spin_unacked = any(e.startswith("spin ") and e.split()[-1] == "0" for e in tr.evs)
+    for conn in (connection_streams(tr) if not spin_unacked and not has(tr, "spinsub", "threads") and not tr.faulty else []):
         inp, outp = inbound(tr, conn), outbound(tr, conn)
         if inp is not None and outp is not None:
             timeline = [(k, 0, o) for k, o in outp] + [(k, 1, rx_info(p)) for k, p in inp]
@@ -512,6 +520,14 @@ def c13(case, lines):
     start, end = run_window(tr)
     rr = tr.run_result()
     cid = case["id"]
+    if cid.startswith("busy-reader-"):
+        # a cause for run() to return arises while hundreds of inbound packets are ready to be read: it is not starved by them
+        rr_ = tr.run_result()
+        want = "ok" if "-disc-" in cid else "err HandleClosed"
+        if rr_ is None or rr_[1] != want:
+            return "exits: with the user's %s while inbound packets keep the read half busy, run() gave %s (the transport ended only after them)" % (
+                "DISCONNECT queued" if "-disc-" in cid else "last handle dropped", rr_)
+        return None
     if cid.startswith("again-after-disconnect"):
         # the first run() ended with the user's DISCONNECT; the second one, on the new connection, has no cause to end
         rl = [(int(l.split(" ")[0]), l) for l in lines if l.split(" ")[1] == "R"]
@@ -842,6 +858,10 @@ def c06(case, lines):
 
 def c06_main(case, lines):
     tr0 = Trace(case, lines)
+    if not (case.get("meta") or {}).get("malformed"):
+        r_ = rejected_wellformed(tr0, "the publishes outstanding never learn their outcome")
+        if r_:
+            return r_
     if not tr0.faulty and not has(tr0, "reconnect", "dropctx", "wblock"):
         # what was written must at least be a sequence of whole, well-formed client packets
         wire = wire_of(lines)
@@ -1057,12 +1077,19 @@ def c15(case, lines):
     r8 = c08(case, lines) if "dropped-stream" in (case.get("tags") or []) else None
     if r8:
         return r8
+    r7 = c07(case, lines) if "dropped-stream" in (case.get("tags") or []) else None
+    if r7:
+        return r7
     return c10(case, lines) if not has(tr, "hold") else None
 
 
 # ---- C16 ------------------------------------------------------------------------------------------
 @oracle("C16")
 def c16(case, lines):
+    if not (case.get("meta") or {}).get("malformed"):
+        r_ = rejected_wellformed(Trace(case, lines), "an extra poll of the Context task in between destroyed bytes already read")
+        if r_:
+            return r_
     return completion_monitor(case, lines, strict_content=False)
 
 
@@ -1102,6 +1129,13 @@ def c17(case, lines):
             resent = [(o["kind"], o["pid"], o) for k, o in outj if k == runj and o["kind"] in ("publish", "pubrel")]
             want = [] if expired else pending
             head = resent[:len(want)]
+            cut_short = any(e.startswith(("werr", "werr0")) for e in tr.evs[conn["first"]:runj + 1])
+            if cut_short:
+                # the transport broke during the resumption: what got out is a prefix of what was due; nothing is forgotten
+                if [(a, b) for a, b, _ in resent] != [(a, b) for a, b, _ in want[:len(resent)]]:
+                    return "resend: the resumption %d that a write fault cut short wrote %s, which is not a prefix of the unfinished handshakes %s" % (
+                        j, [(a, b) for a, b, _ in resent], [(a, b) for a, b, _ in want])
+                continue
             if [(a, b) for a, b, _ in head] != [(a, b) for a, b, _ in want]:
                 return "resend: on resumption %d %s were re-sent, the unfinished handshakes are %s (expired=%s)" % (
                     j, [(a, b) for a, b, _ in resent], [(a, b) for a, b, _ in want], expired)
@@ -1211,6 +1245,13 @@ def c03(case, lines):
 # ---- C04: panic / stall only (generic) --------------------------------------------------------------
 @oracle("C04")
 def c04(case, lines):
+    if (case.get("id") or "").startswith(("rerun-", "reconnect-same-transport-")):
+        # after run() (or connect()) gave up on an undecodable packet, the same connection is served again: what follows is
+        # framed from where the bad packet ended, and the ping gets its PINGRESP
+        tr_ = Trace(case, lines)
+        if not any(r.startswith("ok") for _, r in tr_.done().get(0, [])):
+            return "stall: after the undecodable packet, run() was called again and well-formed packets followed, but the ping pending throughout never completed (%s)" % (
+                tr_.done().get(0) or "still pending")
     """never wedged with unread input: when everything delivered in the running phase is a sequence of whole packets
     that the client keeps serving, the PINGRESP at the end completes the ping pending since the start"""
     tr = Trace(case, lines)
@@ -1327,6 +1368,23 @@ def c01(case, lines):
     r0 = connect_content(tr)
     if r0:
         return r0
+    if (case.get("id") or "") in ("quota0-others", "pings-outstanding"):
+        # nothing but a QoS>0 PUBLISH is ever refused for the send quota, and no valid request is refused for any other
+        # reason: each is written, in submission order
+        specs_, done_ = op_specs(tr), tr.done()
+        for op_, rs_ in done_.items():
+            sp_ = specs_.get(op_)
+            if sp_ and rs_[0][1].startswith("err") and not (sp_["kind"] == "pub" and sp_["args"].get("q", "0") != "0" and "QuotaExceeded" in rs_[0][1]):
+                return "refused: the valid request %d (%s) ended with '%s'" % (op_, sp_["kind"], rs_[0][1][:40])
+        conn_ = connection_streams(tr)[0]
+        outp_ = outbound(tr, conn_)
+        if outp_ is not None:
+            kinds_ = {"pub": "publish", "sub": "subscribe", "unsub": "unsubscribe", "ping": "pingreq", "disc": "disconnect"}
+            fp_ = first_polls(tr)
+            want_ = [kinds_[specs_[o]["kind"]] for o in sorted(fp_, key=lambda o: fp_[o]) if o in specs_]
+            got_ = [o["kind"] for k, o in outp_ if o["kind"] in kinds_.values()]
+            if got_ != want_:
+                return "order: the requests submitted are %s, the request packets written are %s" % (want_, got_)
     if (case.get("id") or "").startswith("dropped-queued"):
         # (the rule needs every local refusal to be observed; these scripts make sure it is)
         r = submission_order(tr)
@@ -1489,6 +1547,11 @@ def c02(case, lines):
     """every value exposed through the accessors equals the value encoded in the (well-formed) packet delivered, with the
     standard's defaults for absent properties - computed here from the packet bytes, independently of model and code"""
     tr = Trace(case, lines)
+    if "reuse" in (case.get("tags") or []):
+        got = [kv(" ".join(l.split(" ")[3:]))["pl"] for l in lines if l.split(" ")[1] == "I"]
+        if got != [M.hx(b"first"), M.hx(b"second")]:
+            return "accept: the PUBREL delivered (whatever its legal form and reason code) ends the exchange; the stream yielded %s, the broker sent ['%s', '%s'] as two separate messages" % (
+                got, M.hx(b"first"), M.hx(b"second"))
     if "tail2" in (case.get("tags") or []):
         # a two-byte packet at the very end of a read that brought other packets is seen like any other
         dk = max(k for k, e in enumerate(tr.evs) if e.startswith("deliver "))
